@@ -44,19 +44,21 @@ type c13frame struct {
 	Req  uint32 `json:"req,omitempty"`
 	Data string `json:"data,omitempty"`
 	Err  string `json:"err,omitempty"`
+	Own  bool   `json:"own,omitempty"` // produced with the channel's keys
+	What string `json:"what,omitempty"`
 }
 
 type c13case struct {
-	Name    string     `json:"name"`
-	Kind    string     `json:"kind"`
-	Mode    int        `json:"mode"`
-	PNone   bool       `json:"pnone"`
-	Opening int        `json:"opening"` // 0 nil, 1 instance without algorithm, 2 toy algorithm
-	OpenP   toyParams  `json:"openp"`
+	Name    string      `json:"name"`
+	Kind    string      `json:"kind"`
+	Mode    int         `json:"mode"`
+	PNone   bool        `json:"pnone"`
+	Opening int         `json:"opening"` // 0 nil, 1 instance without algorithm, 2 toy algorithm
+	OpenP   toyParams   `json:"openp"`
 	Insts   []toyParams `json:"insts"` // instances stored under channel id 7, oldest first
-	Cap     int        `json:"cap"`
-	Frames  []c13frame `json:"frames"`
-	Cert    string     `json:"cert,omitempty"`
+	Cap     int         `json:"cap"`
+	Frames  []c13frame  `json:"frames"`
+	Cert    string      `json:"cert,omitempty"`
 }
 
 func errClass(err error) (int, string) {
@@ -175,7 +177,15 @@ func fuzzFrames(r *rng.R, c *c13case, n int) [][]byte {
 	return out
 }
 
-func runC13(r *rng.R, c *c13case, nframes int) {
+func runC13(r *rng.R, c *c13case, nframes int) { runC13frames(r, c, nframes, nil) }
+
+type namedFrame struct {
+	b    []byte
+	own  bool
+	what string
+}
+
+func runC13frames(r *rng.R, c *c13case, nframes int, given []namedFrame) {
 	peer, conn := pair(defaultAck(uint32(c.Cap), 4, 1000))
 	defer peer.Close()
 	defer conn.Close()
@@ -201,11 +211,17 @@ func runC13(r *rng.R, c *c13case, nframes int) {
 	case 2:
 		v.SetOpening(toyAlgo(c.OpenP), chanID, tokID, 0)
 	}
-	for _, b := range fuzzFrames(r, c, nframes) {
+	if given == nil {
+		for _, b := range fuzzFrames(r, c, nframes) {
+			given = append(given, namedFrame{b: b})
+		}
+	}
+	for _, g := range given {
+		b := g.b
 		peer.Write(b)
 		conn.SetReadDeadline(time.Now().Add(3 * time.Second))
 		f := readOne(v)
-		f.B = hx(b)
+		f.B, f.Own, f.What = hx(b), g.own, g.what
 		c.Frames = append(c.Frames, f)
 		if f.K == "uacp" {
 			break
